@@ -41,7 +41,7 @@ func runC08(c *Ctx, r *Report, tier string) {
 	// RESOLVE
 	lk := "lookup(lookup.commands(&parseState.lookup(P1)), parseState.arg(P1))"
 	var look ssa.Instruction
-	for _, b := range pno.Blocks {
+	for _, b := range c.blocks(pno) {
 		for _, in := range b.Instrs {
 			if v, ok := in.(*ssa.Lookup); ok && strings.HasPrefix(c.term(v.X), "lookup.commands(") {
 				look = in
@@ -85,7 +85,7 @@ func runC08(c *Ctx, r *Report, tier string) {
 		}
 	}
 	// PassAfterNonOption guard in ParseArgs consults the same table (shared with C03)
-	for _, b := range pa.Blocks {
+	for _, b := range c.blocks(pa) {
 		for _, in := range b.Instrs {
 			if v, ok := in.(*ssa.Lookup); ok && strings.HasPrefix(c.term(v.X), "lookup.commands(") {
 				r.Check(strings.HasPrefix(c.term(v), "lookup(lookup.commands(&parseState.lookup(new:parseState)), call:(*parseState).pop("), "RESOLVE", c.fname(pa), "PassAfterNonOption consults the current command table", c.ipos(in), "commands[token] of the current parse state", "lookup is "+trunc(c.term(v), 100))
@@ -96,7 +96,7 @@ func runC08(c *Ctx, r *Report, tier string) {
 	// TABLE
 	fn := c.fname(fl)
 	nName, nAlias := 0, 0
-	for _, b := range fl.Blocks {
+	for _, b := range c.blocks(fl) {
 		for _, in := range b.Instrs {
 			mu, ok := in.(*ssa.MapUpdate)
 			if !ok || !strings.HasPrefix(c.term(mu.Map), "lookup.commands(") {
@@ -143,41 +143,37 @@ func runC08(c *Ctx, r *Report, tier string) {
 		}
 		r.Check(nMaps == 3, "SCOPE", mn, "three fresh maps", c.ipos(tbl), "shortNames, longNames, commands are new maps", fmt.Sprintf("%d fresh maps", nMaps))
 	}
-	var anc, self ssa.Instruction
-	for _, in := range c.instrs(ml, c.isCallTo("(*Command).fillLookup")) {
-		call := in.(*ssa.Call)
-		recv, flag := c.term(call.Call.Args[0]), c.term(call.Call.Args[2])
-		if recv == "P0" {
-			self = in
-			r.Check(flag == "false", "SCOPE", mn, "the command itself contributes options and subcommands", c.ipos(in), "fillLookup(&ret, false)", "onlyOptions = "+flag+" for the command itself")
+	af := c.ancestorFill(ml)
+	for _, pr := range af.problems {
+		r.Fail("SCOPE", mn, pr.what, c.ipos(pr.at), pr.detail)
+	}
+	if af.self != nil {
+		flag := c.term(af.self.(*ssa.Call).Call.Args[2])
+		r.Check(flag == "false", "SCOPE", mn, "the command itself contributes options and subcommands", c.ipos(af.self), "fillLookup(&ret, false)", "onlyOptions = "+flag+" for the command itself")
+	}
+	if af.anc != nil {
+		flag := c.term(af.anc.(*ssa.Call).Call.Args[2])
+		r.Check(flag == "true", "SCOPE", mn, "ancestors contribute options only", c.ipos(af.anc), "fillLookup(&ret, true)", "onlyOptions = "+flag+" for an ancestor")
+		if af.orderOK {
+			r.OK("SCOPE", mn, "ancestors visited outermost first", c.ipos(af.anc), af.orderWhy)
 		} else {
-			anc = in
-			r.Check(flag == "true", "SCOPE", mn, "ancestors contribute options only", c.ipos(in), "fillLookup(&ret, true)", "onlyOptions = "+flag+" for an ancestor")
-			// direction: index phi starts at len-1 and decreases
-			idx := ""
-			if u, ok := call.Call.Args[0].(*ssa.UnOp); ok {
-				if ia, ok := u.X.(*ssa.IndexAddr); ok {
-					idx = c.term(ia.Index)
-				}
-			}
-			okDir := strings.HasPrefix(idx, "phi{(len(phi{append(") && strings.HasSuffix(idx, " - 1) | (phi↺ - 1)}")
-			if okDir {
-				r.OK("SCOPE", mn, "ancestors visited outermost first", c.ipos(in), "the chain is collected nearest-first and walked from its last element down to 0")
-			} else {
-				r.Undec("SCOPE", mn, "ancestors visited outermost first", c.ipos(in), "loop form not recognised: index evolves as "+trunc(idx, 120))
-			}
+			r.Undec("SCOPE", mn, "ancestors visited outermost first", c.ipos(af.anc), af.orderWhy)
 		}
 	}
-	if anc == nil || self == nil {
+	if af.anc == nil || af.self == nil {
 		r.Fail("SCOPE", mn, "fill calls", "", "expected fillLookup on ancestors and on the command itself")
 	} else {
-		r.Check(!c.reachableFrom(ml, self, isInstr(anc)), "SCOPE", mn, "the command's own declarations are entered last", c.ipos(self), "no ancestor fill is reachable after the command's own fill: inner declarations overwrite outer ones", "an ancestor can be filled after the command itself (outer names would win)")
+		entry := af.anc
+		if af.ancEntry != nil {
+			entry = af.ancEntry
+		}
+		r.Check(!c.reachableFrom(ml, af.self, isInstr(entry)), "SCOPE", mn, "the command's own declarations are entered last", c.ipos(af.self), "no ancestor fill is reachable after the command's own fill: inner declarations overwrite outer ones", "an ancestor can be filled after the command itself (outer names would win)")
 	}
 	// fillParseState stores
 	fpn := c.fname(fps)
 	want := map[string]string{"lookup": "call:(*Command).makeLookup(P0)", "command": "P0", "positional": "makeslice[[]*Arg](len(Command.args(P0)))"}
 	got := map[string]bool{}
-	for _, b := range fps.Blocks {
+	for _, b := range c.blocks(fps) {
 		for _, in := range b.Instrs {
 			st, ok := in.(*ssa.Store)
 			if !ok {
@@ -203,7 +199,7 @@ func runC08(c *Ctx, r *Report, tier string) {
 	}
 	sitesFL, _ := c.callersOf(fl)
 	for _, s := range sitesFL {
-		r.Check(s.Fn == ml, "SCOPE", c.fname(s.Fn), "caller of fillLookup", c.ipos(s.Call), "only makeLookup fills a table (always a fresh one)", "fillLookup called from "+c.fname(s.Fn)+": a table is extended in place, stale entries of outer commands survive")
+		r.Check(s.Fn == ml || af.helper != nil && s.Fn == af.helper, "SCOPE", c.fname(s.Fn), "caller of fillLookup", c.ipos(s.Call), "only makeLookup fills a table (always a fresh one)", "fillLookup called from "+c.fname(s.Fn)+": a table is extended in place, stale entries of outer commands survive")
 	}
 	r.Check(len(got) == 3, "SCOPE", fpn, "state fields switched", c.pos(fps.Pos()), "lookup, command and positional are all replaced", fmt.Sprintf("only %d of 3 stored", len(got)))
 
@@ -233,4 +229,131 @@ func runC08(c *Ctx, r *Report, tier string) {
 		}
 	}
 	r.Check(okOpt, "DIAGNOSE", pn, "with optional subcommands an unknown word is an ordinary argument", c.pos(pno.Pos()), "addArgs(token) is reachable on the SubcommandsOptional edge", "an unknown word with optional subcommands does not reach addArgs")
+}
+
+// ancestorFill recognises how makeLookup enters the declarations of the
+// ancestors of a command and of the command itself. Two forms are known:
+// (loop) the parent chain is collected nearest-first into a slice that is then
+// walked from its last element down to 0; (recursion) a helper h(c, tbl), used
+// only by makeLookup and itself, takes a = c.parent.(*Command), returns when
+// there is none, and calls h(a, tbl) before a.fillLookup(tbl, true).
+type ancFill struct {
+	anc, self ssa.Instruction // fillLookup on an ancestor / on the command itself
+	ancEntry  ssa.Instruction // the instruction in makeLookup that starts the ancestor pass (recursion form)
+	helper    *ssa.Function
+	orderOK   bool
+	orderWhy  string
+	problems  []ancProblem
+}
+type ancProblem struct {
+	what, detail string
+	at           ssa.Instruction
+}
+
+func (c *Ctx) ancestorFill(ml *ssa.Function) *ancFill {
+	af := &ancFill{}
+	parentOf := "assert[*Command](Group.parent(Command.Group(P0)))#0"
+	for _, b := range ml.Blocks {
+		for _, in := range b.Instrs {
+			call, ok := in.(*ssa.Call)
+			if !ok {
+				continue
+			}
+			cal := call.Common().StaticCallee()
+			if cal == nil {
+				continue
+			}
+			switch {
+			case c.fname(cal) == "(*Command).fillLookup":
+				recv := c.term(call.Call.Args[0])
+				if recv == "P0" {
+					af.self = in
+					continue
+				}
+				af.anc = in
+				idx := ""
+				if u, ok := call.Call.Args[0].(*ssa.UnOp); ok {
+					if ia, ok := u.X.(*ssa.IndexAddr); ok {
+						idx = c.term(ia.Index)
+					}
+				}
+				if !strings.HasPrefix(recv, "idx(phi{append(phi↺, slice(new:[1]*Command") {
+					af.problems = append(af.problems, ancProblem{"fillLookup receiver", "lookup filled from " + trunc(recv, 100), in})
+				}
+				af.orderOK = strings.HasPrefix(idx, "phi{(len(phi{append(") && strings.HasSuffix(idx, " - 1) | (phi↺ - 1)}")
+				if af.orderOK {
+					af.orderWhy = "the chain is collected nearest-first and walked from its last element down to 0"
+				} else {
+					af.orderWhy = "loop form not recognised: index evolves as " + trunc(idx, 120)
+				}
+			case c.isNewRecursive(cal):
+				// recursion form
+				h := cal
+				if c.term(call.Call.Args[0]) != "P0" {
+					af.problems = append(af.problems, ancProblem{"ancestor walk starts at the command", "the ancestor helper is started at " + trunc(c.term(call.Call.Args[0]), 80), in})
+				}
+				af.helper, af.ancEntry = h, in
+				var rec, fill []ssa.Instruction
+				for _, hb := range h.Blocks {
+					for _, hin := range hb.Instrs {
+						hc, ok := hin.(*ssa.Call)
+						if !ok {
+							continue
+						}
+						switch hc.Common().StaticCallee() {
+						case h:
+							rec = append(rec, hin)
+						case c.Fn("(*Command).fillLookup"):
+							fill = append(fill, hin)
+						}
+					}
+				}
+				if len(rec) != 1 || len(fill) != 1 {
+					af.orderWhy = fmt.Sprintf("recursion form not recognised: %d recursive calls, %d fillLookup calls in %s", len(rec), len(fill), c.fname(h))
+					if len(fill) > 0 {
+						af.anc = fill[0]
+					}
+					continue
+				}
+				af.anc = fill[0]
+				rc, fc := rec[0].(*ssa.Call), fill[0].(*ssa.Call)
+				okRecv := c.term(rc.Call.Args[0]) == parentOf && c.term(fc.Call.Args[0]) == parentOf
+				okTbl := len(h.Params) >= 2 && c.term(rc.Call.Args[1]) == "P1" && c.term(fc.Call.Args[1]) == "P1"
+				_, okOrder := c.MustPass(h, isInstr(fill[0]), isInstr(rec[0]), nil, nil)
+				_, okGuard := c.Requires(h, isInstr(fill[0]), litHas(true, "assert[*Command](Group.parent(Command.Group(P0)))#1"), nil)
+				sites, asVal := c.callersOf(h)
+				okWho := len(asVal) == 0
+				for _, s := range sites {
+					if s.Fn != ml && s.Fn != h {
+						okWho = false
+					}
+				}
+				if !okRecv {
+					af.problems = append(af.problems, ancProblem{"fillLookup receiver", "lookup filled from " + trunc(c.term(fc.Call.Args[0]), 100) + ", recursion on " + trunc(c.term(rc.Call.Args[0]), 100), fill[0]})
+				}
+				af.orderOK = okRecv && okTbl && okOrder && okGuard && okWho
+				if af.orderOK {
+					af.orderWhy = "recursion on the parent command precedes the parent's own fill, into the same table"
+				} else {
+					af.orderWhy = fmt.Sprintf("recursion form: receivers=%v table=%v recursive-call-first=%v parent-guard=%v callers=%v", okRecv, okTbl, okOrder, okGuard, okWho)
+				}
+			}
+		}
+	}
+	return af
+}
+
+// isNewRecursive: a non-frozen function that calls itself.
+func (c *Ctx) isNewRecursive(fn *ssa.Function) bool {
+	if fn == nil || fn.Blocks == nil || fn.Pkg != c.Pkg || c.allKnown || knownFuncs[c.fname(fn)] || fn.Parent() != nil {
+		return false
+	}
+	for _, b := range fn.Blocks {
+		for _, in := range b.Instrs {
+			if ci, ok := in.(ssa.CallInstruction); ok && ci.Common().StaticCallee() == fn {
+				return true
+			}
+		}
+	}
+	return false
 }
